@@ -7,7 +7,6 @@ import (
 	"errors"
 	"fmt"
 	"io"
-	"math"
 	"unicode/utf8"
 
 	"github.com/ohler55/ojg"
@@ -233,11 +232,12 @@ func (t *Tokenizer) tokenizeBuffer(buf []byte, last bool) {
 				if digitMap[b] != numDigit {
 					break
 				}
-				t.num.I = t.num.I*10 + uint64(b-'0')
-				if math.MaxInt64 < t.num.I {
+				if gen.BigLimit <= t.num.I {
 					t.num.FillBig()
+					t.num.AddDigit(b)
 					break
 				}
+				t.num.I = t.num.I*10 + uint64(b-'0')
 			}
 			if digitMap[b] == numDigit {
 				off++
@@ -331,12 +331,12 @@ func (t *Tokenizer) tokenizeBuffer(buf []byte, last bool) {
 				if digitMap[b] != numDigit {
 					break
 				}
-				t.num.Frac = t.num.Frac*10 + uint64(b-'0')
-				t.num.Div *= 10.0
-				if math.MaxInt64 < t.num.Frac {
-					t.num.FillBig()
+				if gen.BigLimit <= t.num.Div {
+					t.num.AddFrac(b)
 					break
 				}
+				t.num.Frac = t.num.Frac*10 + uint64(b-'0')
+				t.num.Div *= 10.0
 			}
 			off += i
 			if digitMap[b] == numDigit {
@@ -391,6 +391,9 @@ func (t *Tokenizer) tokenizeBuffer(buf []byte, last bool) {
 			off += i
 		case expSign:
 			t.mode = expZeroMap
+			if 0 < len(t.num.BigBuf) {
+				t.num.BigBuf = append(t.num.BigBuf, b)
+			}
 			if b == '-' {
 				t.num.NegExp = true
 			}
